@@ -1,8 +1,9 @@
 (* C03 — every valid external encoding of a value decodes to exactly that value.
    The format is stated as a relation between values and byte strings (Codec/Spec.v: every minimal, non-minimal, modern
    and legacy form, nested arbitrarily); C03_every_form_same_value is the decoder's soundness for it, for all values.
-   Outside the relation (own theorems or correspondence only): maps (recorded findings), compressed terms, the textual
-   float, NEW_FUN_EXT, LOCAL_EXT and ATOM_CACHE_REF. *)
+   Maps have their own theorem (C03_map_keeps_every_entry: nothing is lost when the keys are lawful and denote different
+   values; the recorded findings are exactly the keys outside that class).  Outside (correspondence only): compressed
+   terms, the textual float, LOCAL_EXT and ATOM_CACHE_REF. *)
 From EDP Require Import Base.Bytes Term.Term Term.Value Gen.Tags Gen.Limits Gen.DecoderArms.
 From EDP Require Import Codec.Encode Codec.Decode Codec.DecodeFacts Codec.Norm Codec.RoundTrip Codec.RoundTrip2 Codec.Spec Codec.SpecFacts.
 
@@ -165,5 +166,37 @@ Theorem C03_refuted_numeric_keys :
   (* #{1 => 10, 1.0 => 20} *)
   decode cfg [131; 116; 0; 0; 0; 2; 97; 1; 97; 10; 70; 63; 240; 0; 0; 0; 0; 0; 0; 97; 20] = DOk (TMap [(TInt 1, TInt 20)]).
 Proof. vm_compute. reflexivity. Qed.
+
+(* ---- maps ----
+   MAP_EXT is decoded into a BTreeMap ordered by the term comparison.  On keys that are lawful for that comparison (no
+   floats, no improper lists, no internal funs, integers as the library holds them) Equal means "same Erlang value"; so
+   when the decoded keys denote pairwise different values every entry of the wire is in the result exactly once, whatever
+   the wire order.  (Keys outside the class are the recorded findings C03-map-numeric-keys / -list-improper-keys.) *)
+From EDP Require Import Order.Cmp Order.Key Order.KeyFacts.
+From Coq Require Import Permutation.
+
+Theorem C03_equal_keys_same_value : forall a b, tcl0 a -> tcl0 b -> cmp_owned a b = Eq -> denote a = denote b.
+Proof. exact cmp_eq_same_value. Qed.
+
+Theorem C03_map_keeps_every_entry : forall cfg, d_arms cfg = owned_arms -> d_kcmp cfg = cmp_owned -> d_kinsert cfg = map_insert ->
+  forall f n r l r', n < 4294967296 -> n <= max_map_size ->
+  seq_with (parse cfg f) (S (length r)) (2 * n) r = SOk l r' -> distinct_values [] (pair_up l) ->
+  exists m, parse cfg (S f) (tag_map_ext :: be 4 n ++ r) = POk (TMap m) r' /\ Permutation (pair_up l) m.
+Proof. intros cfg Ha Hk Hi. exact (map_ext_decodes cfg Ha Hk Hi). Qed.
+
+(* the premises are met by a map with an integer, a big integer beyond i64, an atom, a tuple and a list as keys, sent in
+   descending order: all five entries come back, in key order *)
+Example C03_map_example :
+  let cfg := {| d_arms := owned_arms; d_cache := []; d_refs := []; d_inflate := fun _ => None; d_float_text := fun _ => None;
+                d_kcmp := cmp_owned; d_kinsert := map_insert; d_extra_fuel := 0 |} in
+  let l := [(TList [TInt 1], TInt 5); (TTuple [TAtom [97]], TInt 4); (TAtom [97], TInt 3);
+            (TBig false [0; 0; 0; 0; 0; 0; 0; 0; 1], TInt 2); (TInt 7, TInt 1)] in
+  distinct_values [] l /\ map_of_list cmp_owned l = rev l.
+Proof.
+  cbv zeta. split; [|vm_compute; reflexivity].
+  cbn [distinct_values fst In]. repeat split; try exact I; try (cbn [tcl0 int_term]; repeat split; try lia; try exact I; try discriminate).
+  all: try (intros kv' Hin; repeat destruct Hin as [<-|Hin]; try contradiction; cbn [fst denote]; discriminate).
+  all: try (repeat constructor; lia). all: try (unfold Order.NumLaws.minimal; cbn; discriminate).
+Qed.
 
 Check C03_trailing_reported.
